@@ -11,7 +11,10 @@ import Verif.Model.Common
   * `authority/admins.go` `StoreAdmin / UpdateAdmin / RemoveAdmin(removeAdmin)`,
     `authority/provisioners.go` `StoreProvisioner / UpdateProvisioner / RemoveProvisioner`,
     `authority/authority.go` `ReloadAdminResources`            → `Auth.*`
-  * `authority/policy.go` `checkPolicy` (lock-out test)         → `checkPolicy`
+  * `authority/policy.go` `checkPolicy` (lock-out test), `checkAuthorityPolicy`,
+    `checkProvisionerPolicy`, `Create/Update/RemoveAuthorityPolicy`, `reloadPolicyEngines`
+                                                               → `checkPolicy`, `polCheck`,
+                                                                 `provPolicyCheck`, `policyWrite`, `reloadPolicy`
   * `authority/authorize.go` `AuthorizeAdminToken` / `UseToken` (reached through
     `authority/admin/api/middleware.go` `extractAuthorizeTokenAdmin`) → `authorizeAdmin`
 
@@ -31,6 +34,11 @@ import Verif.Model.Common
     `cast.Uint32(len)` cannot abort for fewer than 2³² provisioners (assumption).
   * admin type is a `Bool` (`super`): the admin API validates `ADMIN | SUPER_ADMIN`.
   * A Go panic is `M.crash` (`Update` on an unknown id, `Remove` indexing past `sorted`).
+  * `CreateAdmin` / `CreateProvisioner` / `CreateAuthorityPolicy` are compare-and-swaps against
+    "absent" (`db.save(old = nil)`): they fail when the key exists. Ids the database draws at
+    random are inputs of the operation.
+  * a provisioner's own policy (`Prov.pol`) is only an argument of the lock-out check; the model
+    keeps it with the record, the nosql admin database does not persist it (never observed).
 
   `Variant` selects which repairs of notes/C16.md are in the modelled code: `Variant.coded` is the
   tree before the `fix:` commits e3cc9eb / 80a4538, `Variant.updateFixed` is the tree before
@@ -89,6 +97,61 @@ def pagesG {α : Type} (key : α → Str) (dec enc : Str → Str) (l : List α) 
 def normLimit (limit : Int) : Nat :=
   if limit ≤ 0 then 20 else if limit > 100 then 100 else limit.toNat
 
+/-! ## lock-out check of a new policy (`checkPolicy`) -/
+
+/-- verdict of `engine.AreSANsAllowed([subject])` (C04 model; an input here) -/
+inductive SanVerdict
+  | allowed | notAllowed | evalError
+  deriving DecidableEq, Repr
+
+inductive PolOut
+  | ok | lockOut | evalFailure
+  deriving DecidableEq, Repr
+
+/-- `checkPolicy` once the engine is built: current admin first, then every other admin;
+    the first subject that is not allowed refuses the policy -/
+def checkPolicy (verdict : Str → SanVerdict) : List Str → PolOut
+  | [] => .ok
+  | sub :: r => match verdict sub with
+    | .allowed => checkPolicy verdict r
+    | .notAllowed => .lockOut
+    | .evalError => .evalFailure
+
+/-- what `LinkedToCertificates` + `NewX509PolicyEngine` make of a policy document -/
+inductive PolKind
+  | noX509       -- no X.509 part / no names: no engine, nothing to evaluate
+  | badConfig    -- the engine cannot be built (`ConfigurationFailure`)
+  | engine
+  deriving DecidableEq, Repr
+
+/-- a policy document: its identity, what the engine constructor makes of it, and the verdict of
+    the resulting engine on each subject that matters (inputs computed with the real engine; C04
+    owns the engine) -/
+structure Pol where
+  tag : Str
+  kind : PolKind
+  verdicts : List (Str × SanVerdict) := []
+  deriving DecidableEq, Repr
+
+def verdictOf (p : Pol) (sub : Str) : SanVerdict :=
+  match p.verdicts.find? (·.1 = sub) with
+  | some e => e.2
+  | none => .evalError
+
+inductive PolCheck
+  | ok | lockOut | evalFailure | configFailure
+  deriving DecidableEq, Repr
+
+/-- `checkPolicy(currentAdmin, otherAdmins, p)` -/
+def polCheck (p : Pol) (subjects : List Str) : PolCheck :=
+  match p.kind with
+  | .noX509 => .ok
+  | .badConfig => .configFailure
+  | .engine => match checkPolicy (verdictOf p) subjects with
+    | .ok => .ok
+    | .lockOut => .lockOut
+    | .evalFailure => .evalFailure
+
 /-! ## provisioner collection -/
 
 structure Prov where
@@ -97,6 +160,7 @@ structure Prov where
   tok : Str            -- GetIDForToken()
   kid : Option Str     -- GetEncryptedKey(): key id when an encrypted key is present
   sum : Str            -- hex(sha1(id))[8:], 32 hex digits (input computed by the harness)
+  pol : Option Pol := none   -- the provisioner's own policy (checked by Store/UpdateProvisioner only)
   deriving DecidableEq, Repr
 
 structure PColl where
@@ -382,11 +446,14 @@ def crun (v : Variant) (s : Cache) : List COp → Cache
 structure DB where
   provs : List Prov := []
   adms : List Adm := []
+  policy : Option Pol := none        -- the authority policy
   deriving DecidableEq, Repr
 
 structure Auth where
   cache : Cache := {}
   db : DB := {}
+  /-- `a.policyEngine`: the authority policy the running CA enforces -/
+  engine : Option Pol := none
   /-- number of admin-database calls made so far inside the current request -/
   calls : Nat := 0
   deriving DecidableEq, Repr
@@ -439,6 +506,10 @@ inductive AuthOut
   | storeFailed         -- the database call failed, the caches were reloaded from the database
   | reloadFailed        -- … and the reload failed as well
   | cacheFailed         -- the cache refused what the database accepted (reloaded)
+  | lockOut             -- policy refused: it would lock an administrator out
+  | evalFailure         -- policy refused: a subject could not be evaluated
+  | configFailure       -- policy refused: no engine can be built from it
+  | internalFailure     -- reading the administrators for the lock-out check failed
   | crash
   deriving DecidableEq, Repr
 
@@ -462,6 +533,9 @@ inductive AOp
   | storeProv (p : Prov)                        -- `p.id` = the id `CreateProvisioner` assigns
   | updateProv (p : Prov)
   | removeProv (id : Str)
+  | createPolicy (cur : Str) (p : Pol)         -- `cur` = subject of the requesting admin
+  | updatePolicy (cur : Str) (p : Pol)
+  | removePolicy
   | restart
   deriving DecidableEq, Repr
 
@@ -482,9 +556,41 @@ def removeAdmin1 (f : Faults) (s : Auth) (id : Str) : Auth × AuthOut :=
 def removeAdmins (f : Faults) (s : Auth) : List Str → Auth × AuthOut
   | [] => (s, .ok)
   | id :: r =>
-    match removeAdmin1 f s id with
-    | (s', .ok) => removeAdmins f s' r
-    | (s', o) => (s', o)
+    let r1 := removeAdmin1 f s id
+    if r1.2 = .ok then removeAdmins f r1.1 r else r1
+
+/-- outcome class of a refused policy -/
+def polOut : PolCheck → Option AuthOut
+  | .ok => none
+  | .lockOut => some .lockOut
+  | .evalFailure => some .evalFailure
+  | .configFailure => some .configFailure
+
+/-- `checkProvisionerPolicy(prov.Name, prov.Policy)`: the administrators registered under that
+    *name* in the admin collection must stay allowed -/
+def provPolicyCheck (A : AColl) (p : Prov) : Option AuthOut :=
+  match p.pol with
+  | none => none
+  | some pol => polOut (polCheck pol (((A.byProv.get p.name).getD []).map (·.sub)))
+
+/-- `reloadPolicyEngines`: one database read; the engine is replaced only when that succeeds -/
+def reloadPolicy (f : Faults) (s : Auth) : Auth × AuthOut :=
+  let (s, bad) := tick f s
+  if bad then (s, .reloadFailed) else ({ s with engine := s.db.policy }, .ok)
+
+/-- `CreateAuthorityPolicy` / `UpdateAuthorityPolicy`: lock-out check against the requesting admin
+    and every administrator in the database, database write, engine reload -/
+def policyWrite (f : Faults) (s : Auth) (cur : Str) (p : Pol) (create : Bool) : Auth × AuthOut :=
+  let (s, bad) := tick f s                                   -- GetAdmins
+  if bad then (s, .internalFailure) else
+  match polOut (polCheck p (cur :: s.db.adms.map (·.sub))) with
+  | some o => (s, o)
+  | none =>
+    let (s, bad) := tick f s                                 -- Create/UpdateAuthorityPolicy
+    if bad then (s, .storeFailed) else
+    if create && s.db.policy.isSome then (s, .storeFailed) else      -- save(old = nil) on an existing key
+    if !create && s.db.policy.isNone then (s, .storeFailed) else     -- update: not found
+    reloadPolicy f { s with db := { s.db with policy := some p } }
 
 def step (v : Variant) (f : Faults) (s0 : Auth) (op : AOp) : Auth × AuthOut :=
   let s := { s0 with calls := 0 }
@@ -494,6 +600,8 @@ def step (v : Variant) (f : Faults) (s0 : Auth) (op : AOp) : Auth × AuthOut :=
     if s.cache.A.bySubProv.has (a.sub, pname) then (s, .badRequest) else
     let (s, bad) := tick f s
     if bad then (s, .storeFailed) else
+    -- `db.save(…, old = nil)`: compare-and-swap against "absent"
+    if s.db.adms.any (fun x => x.id = a.id) then (s, .storeFailed) else
     let s := { s with db := { s.db with adms := insDB (·.id) a s.db.adms } }
     match s.cache.A.store a pid pname with
     | (A, none) => ({ s with cache := { s.cache with A := A } }, .ok)
@@ -511,13 +619,20 @@ def step (v : Variant) (f : Faults) (s0 : Auth) (op : AOp) : Auth × AuthOut :=
   | .storeProv p =>
     if s.cache.P.byName.has p.name then (s, .badRequest) else
     if s.cache.P.byTok.has p.tok then (s, .badRequest) else
+    match provPolicyCheck s.cache.A p with
+    | some o => (s, o)
+    | none =>
     let (s, bad) := tick f s
     if bad then (s, .storeFailed) else
+    if s.db.provs.any (fun x => x.id = p.id) then (s, .storeFailed) else
     let s := { s with db := { s.db with provs := insDB (·.id) p s.db.provs } }
     match s.cache.P.store p with
     | (P, none) => ({ s with cache := { s.cache with P := P } }, .ok)
     | (P, some _) => afterFail f { s with cache := { s.cache with P := P } } .cacheFailed
   | .updateProv p =>
+    match provPolicyCheck s.cache.A p with
+    | some o => (s, o)
+    | none =>
     match s.cache.P.update p with
     | (_, some .notFound) => (s, .notFound)
     | (P, some _) => ({ s with cache := { s.cache with P := P } }, .badRequest)
@@ -534,21 +649,29 @@ def step (v : Variant) (f : Faults) (s0 : Auth) (op : AOp) : Auth × AuthOut :=
     | some p =>
       if s.cache.A.superCount = s.cache.A.superBy p.name then (s, .badRequest) else
       let ids := ((s.cache.A.byProv.get p.name).getD []).map (·.id)
-      match removeAdmins f s ids with
-      | (s, .ok) =>
-        (match s.cache.P.remove p.id with
-        | (P, some _) => ({ s with cache := { s.cache with P := P } }, .notFound)
-        | (P, none) =>
-          let s := { s with cache := { s.cache with P := P } }
-          let (s, bad) := tick f s
-          if bad then afterFail f s .storeFailed else
-          ({ s with db := { s.db with provs := s.db.provs.filter (fun q => decide (q.id ≠ id)) } }, .ok))
-      | (s, o) => (s, o)
+      let r := removeAdmins f s ids
+      if r.2 ≠ .ok then r else
+      let s := r.1
+      match s.cache.P.remove p.id with
+      | (P, some _) => ({ s with cache := { s.cache with P := P } }, .notFound)
+      | (P, none) =>
+        let s := { s with cache := { s.cache with P := P } }
+        let (s, bad) := tick f s
+        if bad then afterFail f s .storeFailed else
+        ({ s with db := { s.db with provs := s.db.provs.filter (fun q => decide (q.id ≠ id)) } }, .ok)
+  | .createPolicy cur p => policyWrite f s cur p true
+  | .updatePolicy cur p => policyWrite f s cur p false
+  | .removePolicy =>
+    let (s, bad) := tick f s
+    if bad then (s, .storeFailed) else
+    match s.db.policy with
+    | none => (s, .storeFailed)                   -- DeleteAuthorityPolicy: not found
+    | some _ => reloadPolicy f { s with db := { s.db with policy := none } }
   | .restart =>
     -- a new process: caches rebuilt from the database (start-up fails if that fails)
     match reload f s with
     | (s, true) => (s, .reloadFailed)
-    | (s, false) => (s, .ok)
+    | (s, false) => ({ s with engine := s.db.policy }, .ok)
 
 def run (v : Variant) (s : Auth) : List (AOp × Faults) → Auth
   | [] => s
@@ -556,25 +679,36 @@ def run (v : Variant) (s : Auth) : List (AOp × Faults) → Auth
 
 end Auth
 
-/-! ## lock-out check of a new policy (`checkPolicy`) -/
+/-! ### the loop of `RemoveProvisioner` with Go's slice aliasing spelled out
 
-/-- verdict of `engine.AreSANsAllowed([subject])` (C04 model; an input here) -/
-inductive SanVerdict
-  | allowed | notAllowed | evalError
-  deriving DecidableEq, Repr
+`admins, _ := a.admins.LoadByProvisioner(provName)` returns the *stored* slice header; the loop
+`for _, adm := range admins { a.removeAdmin(ctx, adm.Id) }` reads `admins[k]` at iteration `k` from
+the backing array, while each `Collection.Remove` inside it overwrites one position of that same
+array (`adminsByProv[i] = adminsByProv[len-1]`) and stores the header shortened by one.
+The backing array is `l ++ tail`: `l` the currently stored slice, `tail` what lies beyond its end. -/
 
-inductive PolOut
-  | ok | lockOut | evalFailure
-  deriving DecidableEq, Repr
+/-- index of the first element with that id (`for i, a := range adminsByProv { if a.Id == adm.Id …`) -/
+def firstIdx (id : Str) : List Adm → Option Nat
+  | [] => none
+  | x :: r => if x.id = id then some 0 else (firstIdx id r).map (· + 1)
 
-/-- `checkPolicy` once the engine is built: current admin first, then every other admin;
-    the first subject that is not allowed refuses the policy -/
-def checkPolicy (verdict : Str → SanVerdict) : List Str → PolOut
-  | [] => .ok
-  | sub :: r => match verdict sub with
-    | .allowed => checkPolicy verdict r
-    | .notAllowed => .lockOut
-    | .evalError => .evalFailure
+/-- `Collection.Remove` on the backing array: `l[i] = l[len-1]`, stored slice `l[:len-1]`; the old
+    last element stays in the array just beyond the new end -/
+def sliceRemove (l tail : List Adm) (id : Str) : List Adm × List Adm :=
+  match firstIdx id l, l.getLast? with
+  | some i, some z => ((l.set i z).dropLast, z :: tail)
+  | _, _ => (l, tail)
+
+/-- the `range` loop: iteration `k` reads position `k` of the *current* backing array, removes that
+    administrator, and goes on; returns the administrators it read -/
+def aliasedLoop : Nat → Nat → List Adm → List Adm → List Adm
+  | 0, _, _, _ => []
+  | fuel + 1, k, l, tail =>
+    match (l ++ tail)[k]? with
+    | none => []
+    | some a =>
+      let r := sliceRemove l tail a.id
+      a :: aliasedLoop fuel (k + 1) r.1 r.2
 
 /-! ## admin token check (`Authority.AuthorizeAdminToken`, authority/authorize.go) -/
 
